@@ -25,7 +25,7 @@ func init() {
 			{"TXN-SOURCE", ruleTxnSource},
 		},
 		Meta: eng.PropMeta{
-			Explanation: "The fault quantifier 'the k-th storage operation fails' is mapped to 'every error edge of every storage-derived call site in the mutation cone'. Decided: (TXN-SHAPE) every function that obtains its transaction from ensureContextTxn defers Discard before any other exit, returns Commit's error, never reaches Commit on a path where an earlier call's error was non-nil, and every success return is dominated by Commit (ExecRequest: Commit only on the no-errors edge); (ERRFLOW) every storage-derived error produced in the cone of the mutating entry points reaches a return or sink on every non-nil path — not dropped, not only logged, not replaced by a different (nil) variable; (EVENT-ONSUCCESS) every publication of an update event sits inside a callback registered with OnSuccess/OnSuccessAsync; (ITER-CLOSE) every iterator acquired in the cone is closed or handed over on every exit; (USE-AFTER-ERR) no co-result of a failed call is dereferenced on the failure edge; (TXN-SOURCE) inside internal/db only the tabled functions create transactions.",
+			Explanation: "The fault quantifier 'the k-th storage operation fails' is mapped to 'every error edge of every storage-derived call site in the mutation cone'. Decided: (TXN-SHAPE) every function that obtains its transaction from ensureContextTxn defers Discard before any other exit, returns Commit's error, never reaches Commit on a path where an earlier call's error was non-nil, and every success return is dominated by Commit (ExecRequest: Commit only on the no-errors edge); (ERRFLOW) every storage-derived error produced in the cone of the mutating entry points reaches a return or sink on every non-nil path — not dropped, not only logged, not replaced by a different (nil) variable; (EVENT-ONSUCCESS) every publication of an update event sits inside a callback registered with OnSuccess/OnSuccessAsync; (ITER-CLOSE) every iterator acquired in the cone is closed or handed over on every exit; (USE-AFTER-ERR) no co-result of a failed call is dereferenced on the failure edge; (TXN-SOURCE) inside internal/db only the tabled functions create transactions. (COMMIT-CALLBACKS) BasicTxn.Commit binds the store commit's error, selects the success callbacks on no path where that error is non-nil (and the error callbacks on no path where it is nil), returns that error on every exit, and only Commit and the matching On* registrar touch the callback lists. Error-flow refinement: a returned call that is not an error constructor (`return it.Close()`, `errors.Join(other, …)`) does not count as surfacing a tracked error.",
 			NotDecided:  "atomicity of the key-value store's own commit (third party); in-memory side effects surviving a rollback (collection index caches); equality of the full before/after state for every fault position",
 		},
 	})
